@@ -8,6 +8,7 @@
 package main
 
 import (
+	"syscall"
 	_ "crypto/sha256"
 	_ "crypto/sha512"
 	"encoding/json"
@@ -166,7 +167,12 @@ func genDoc(r *common.Rand, addrs []string) *jv {
 	if r.Intn(4) == 0 {
 		h := &jv{k: jObj}
 		for i := r.Intn(3); i > 0; i-- {
-			h.set(common.Pick(r, addrs), jstr(common.Pick(r, []string{"ecr-login", "gcloud", ""})))
+			if r.Intn(4) == 0 {
+				h.set(common.Pick(r, addrs), jnull()) // accepted by Load: a null member of a map[string]string
+				run.Count("doc:credHelpers-null-member")
+			} else {
+				h.set(common.Pick(r, addrs), jstr(common.Pick(r, []string{"ecr-login", "gcloud", ""})))
+			}
 		}
 		d.set("credHelpers", h)
 	}
@@ -258,8 +264,17 @@ func main() {
 		concChildMain()
 		return
 	}
+	syscall.Umask(0o022) // the exact modes 0600/0700 are asserted: do not depend on the caller's umask
 	run = common.Start("C18")
-	defer run.Finish()
+	defer func() {
+		bad := checkFloors()
+		run.Finish()
+		if len(bad) > 0 {
+			// a run that did not exercise what it claims to exercise must not pass silently (layer R)
+			fmt.Fprintln(os.Stderr, "COVERAGE FLOOR NOT MET: "+strings.Join(bad, "; "))
+			os.Exit(3)
+		}
+	}()
 	run.Rule = "H: generated docker config documents (unknown nested keys, big numbers, legacy/malformed/unknown-field auth entries, " +
 		"refused documents) x 10-op Put/Get/Delete histories over colliding address forms and credentials with empty parts, colons, " +
 		"non-ASCII, JSON/HTML-special characters; K: SIGKILL before every system call of a save; S: concurrent callers. " +
@@ -321,4 +336,43 @@ func fixedHistories() []histCase {
 			{Op: "G", Addr: "registry.example.com"}, {Op: "D", Addr: "registry.example.com"}, {Op: "G", Addr: "registry.example.com"}}},
 		{Kind: "H", SubDir: true, Ops: []opx{{Op: "D", Addr: "a"}, {Op: "P", Addr: "a", U: "", P: "", R: "rt"}, {Op: "G", Addr: "a"}, {Op: "P", Addr: "a", U: "x:y", P: "p"}, {Op: "G", Addr: "a"}}},
 	}
+}
+
+// checkFloors: minimum coverage of a generated (non-replay) run.
+func checkFloors() []string {
+	if run.Replay != "" {
+		return nil
+	}
+	var bad []string
+	need := func(key string, min int) {
+		if run.Dist[key] < min {
+			bad = append(bad, fmt.Sprintf("%s = %d (< %d)", key, run.Dist[key], min))
+		}
+	}
+	if run.Dist["crash:strace-unavailable"] > 0 {
+		bad = append(bad, "strace fault injection is unavailable: no crash point and no controlled schedule was run")
+	}
+	need("crash:judged-kills", run.Scale(60, 600))
+	need("conc:controlled-overlap-verified", run.Scale(4, 30))
+	need("conc:free-cases-judged", run.Scale(250, 60000))
+	need("conc:race-detector-cases", run.Scale(250, 60000))
+	need("stream:legacy-get", run.Scale(60, 3000))
+	need("stream:plain-vs-memory", run.Scale(60, 5000))
+	need("ref:memory-store", run.Scale(60, 5000))
+	need("init:doc", run.Scale(400, 40000))
+	need("init:symlinked-path", run.Scale(20, 2000))
+	need("store:disable-put", run.Scale(10, 1000))
+	need("codec:decode", run.Scale(1000, 100000))
+	need("doc:lone-surrogate", run.Scale(10, 500))
+	need("put:invalid-utf8", run.Scale(10, 500))
+	if run.Dist["crash:unaligned"]*4 > run.Dist["crash:judged-kills"] {
+		bad = append(bad, fmt.Sprintf("crash:unaligned = %d: more than a quarter of the kills missed their system call", run.Dist["crash:unaligned"]))
+	}
+	if run.Dist["crash:reference-run-failed"]+run.Dist["crash:record-failed"]+run.Dist["crash:no-window"] > run.Scale(2, 20) {
+		bad = append(bad, "too many crash scenarios could not be set up")
+	}
+	if run.Dist["unjudged:case-variant-field"]*10 > run.Dist["init:doc"] {
+		bad = append(bad, "more than 10% of the histories were not judged by the model")
+	}
+	return bad
 }
